@@ -15,9 +15,12 @@ import QmcProofs.LawGood
 * `step_law_invariant_good(_hb)`, `step_law_invariant_cut(_hb)` — **the idealised law of the whole step leaves
   the SSE weight invariant** on `goodSpace`, and the true SSE measure `configWeight · 1_Good` invariant on
   `cfgSpace H N L`.
-* `isingStep_law_invariant_partial(_hb)` — the Ising sampler, hypotheses on the parameters only, plus the one
-  named hypothesis `htrav` on the traversal (`TravOK`, `QmcProofs/LawCluster.lean`); `travOK_of_enum`
-  discharges it for a concrete `H`, `L` by evaluating the traversal on the finitely many skeletons.
+* `isingStep_law_invariant_partial(_hb)` — the Ising sampler, hypotheses on the parameters only, plus the
+  hypothesis `htrav` on the traversal (`TravOK`, `QmcProofs/LawCluster.lean`).  `htrav` is **proved in general**
+  (`Qmc.Law.cfgSpace_travOK`, `QmcProofs/LawTravOK.lean`); the hypothesis-free corollaries are
+  `Qmc.LawThm.isingStep_law_invariant(_hb)`, `step_law_eq_kernels`, and with the component family
+  `step_law_eq_kernels_components(_hb)`, `isingStep_law_eq_timestepK(_hb)` (`QmcProps/Law.lean`).  `travOK_of_enum`
+  (evaluation on the finitely many skeletons of a concrete `H`, `L`) is kept as an independent check.
 -/
 
 open Finset
@@ -124,7 +127,8 @@ theorem goodSpace_len (H : Ham) (N L : Nat) : ∀ c ∈ goodSpace H N L, c.state
 /-! ### law of the cluster update on the Good configurations -/
 
 /-- **law of the cluster update = cluster kernel of its own family**, on the Good configurations, under
-the named hypothesis `TravOK` on the traversal of every skeleton that occurs -/
+the hypothesis `TravOK` on the traversal of every skeleton that occurs (proved: `cfgSpace_travOK`,
+QmcProofs/LawTravOK.lean) -/
 theorem lawK_clusterKT_good (fz : Nat → Bool) (H : Ham) (N L : Nat) (hV : VarsOK H N)
     (htrav : ∀ c ∈ goodSpace H N L, TravOK (skeleton c.slots)) :
     lawK (goodSpace H N L) (clusterKT (1 / 2) fz) =
@@ -292,9 +296,10 @@ theorem isingTimestepT_cfg (s : Sampler.IsingSampler) (β : Rat) :
 
 /-- **`isingTimestep`, the executable whole-step model of `QmcIsingGraph::timestep` (RVB off, heat bath
 off): its idealised law leaves the true SSE measure invariant** — for any valid graph, couplings of any
-sign, Γ ≥ 0, any h, β > 0, cutoff `L`; PARTIAL in one named hypothesis, `htrav`: on every skeleton of a Good
+sign, Γ ≥ 0, any h, β > 0, cutoff `L`; stated with the hypothesis `htrav` (discharged in general by
+`Qmc.Law.cfgSpace_travOK`; hypothesis-free form `Qmc.LawThm.isingStep_law_invariant`): on every skeleton of a Good
 configuration the traversal `traverse` ends without `bad` and returns representatives of pairwise different
-components (decidable per skeleton; checked per case by C09's correspondence). -/
+components. -/
 theorem isingStep_law_invariant_partial (s : Sampler.IsingSampler) (hv : s.spec.Valid)
     (hg : 0 ≤ s.spec.gamma) (hNb : 0 < s.spec.ham.nbonds) (β : Rat) (hβ : 0 < β) (L : Nat)
     (htrav : ∀ c ∈ goodSpace s.spec.ham s.spec.nvars L, TravOK (skeleton c.slots)) :
